@@ -207,3 +207,127 @@ pub open spec fn d_done_data(s: Seq<u8>) -> Dec<DoneDataV> {
         Dec::Unknown => Dec::Unknown,
     }
 }
+
+// ---- executable content ------------------------------------------------------------------------------
+/// byte-level view of an executable-content element (strings as their UTF-8 bytes; Data values are opaque)
+pub enum EcB {
+    If { condition: Data, content: u32, else_content: u32 },
+    Expression { content: Data },
+    Script { content: Seq<u32> },
+    Log { label: Seq<u8>, expression: Data },
+    ForEach { content: u32, index: Seq<u8>, array: Data, item: Seq<u8> },
+    Raise { event: Seq<u8> },
+    Cancel { send_id: Seq<u8>, send_id_expr: Data },
+    Assign { expr: Data, location: Data },
+    Send,
+}
+
+pub open spec fn ecb(v: EcV) -> EcB {
+    match v {
+        EcV::If(x) => EcB::If { condition: x.condition, content: x.content, else_content: x.else_content },
+        EcV::Expression(x) => EcB::Expression { content: x.content },
+        EcV::Script(x) => EcB::Script { content: x.content@ },
+        EcV::Log(x) => EcB::Log { label: sb(x.label), expression: x.expression },
+        EcV::ForEach(x) => EcB::ForEach { content: x.content, index: sb(x.index), array: x.array, item: sb(x.item) },
+        EcV::Raise(x) => EcB::Raise { event: sb(x.event) },
+        EcV::Cancel(x) => EcB::Cancel { send_id: sb(x.send_id), send_id_expr: x.send_id_expr },
+        EcV::Assign(x) => EcB::Assign { expr: x.expr, location: x.location },
+        EcV::Send(x) => EcB::Send,
+    }
+}
+
+pub open spec fn d_raise(s: Seq<u8>) -> Dec<EcB> {
+    match d_str(s) {
+        Dec::Ok(a, r) => Dec::Ok(EcB::Raise { event: a }, r),
+        Dec::Fail => Dec::Fail,
+        Dec::Unknown => Dec::Unknown,
+    }
+}
+
+pub open spec fn d_cancel(s: Seq<u8>) -> Dec<EcB> {
+    match d_str(s) {
+        Dec::Ok(a, r) => match d_data(r) {
+            Dec::Ok(b, r2) => Dec::Ok(EcB::Cancel { send_id: a, send_id_expr: b }, r2),
+            Dec::Fail => Dec::Fail,
+            Dec::Unknown => Dec::Unknown,
+        },
+        Dec::Fail => Dec::Fail,
+        Dec::Unknown => Dec::Unknown,
+    }
+}
+
+pub open spec fn d_assign(s: Seq<u8>) -> Dec<EcB> {
+    match d_data(s) {
+        Dec::Ok(a, r) => match d_data(r) {
+            Dec::Ok(b, r2) => Dec::Ok(EcB::Assign { expr: a, location: b }, r2),
+            Dec::Fail => Dec::Fail,
+            Dec::Unknown => Dec::Unknown,
+        },
+        Dec::Fail => Dec::Fail,
+        Dec::Unknown => Dec::Unknown,
+    }
+}
+
+pub open spec fn d_expression(s: Seq<u8>) -> Dec<EcB> {
+    match d_data(s) {
+        Dec::Ok(a, r) => Dec::Ok(EcB::Expression { content: a }, r),
+        Dec::Fail => Dec::Fail,
+        Dec::Unknown => Dec::Unknown,
+    }
+}
+
+pub open spec fn d_log(s: Seq<u8>) -> Dec<EcB> {
+    match d_str(s) {
+        Dec::Ok(a, r) => match d_data(r) {
+            Dec::Ok(b, r2) => Dec::Ok(EcB::Log { label: a, expression: b }, r2),
+            Dec::Fail => Dec::Fail,
+            Dec::Unknown => Dec::Unknown,
+        },
+        Dec::Fail => Dec::Fail,
+        Dec::Unknown => Dec::Unknown,
+    }
+}
+
+pub open spec fn d_if(s: Seq<u8>) -> Dec<EcB> {
+    match d_data(s) {
+        Dec::Ok(c, r) => match d_id(r) {
+            Dec::Ok(a, r2) => match d_id(r2) {
+                Dec::Ok(b, r3) => Dec::Ok(EcB::If { condition: c, content: a, else_content: b }, r3),
+                Dec::Fail => Dec::Fail,
+                Dec::Unknown => Dec::Unknown,
+            },
+            Dec::Fail => Dec::Fail,
+            Dec::Unknown => Dec::Unknown,
+        },
+        Dec::Fail => Dec::Fail,
+        Dec::Unknown => Dec::Unknown,
+    }
+}
+
+pub open spec fn d_for_each(s: Seq<u8>) -> Dec<EcB> {
+    match d_id(s) {
+        Dec::Ok(c, r) => match d_str(r) {
+            Dec::Ok(ix, r2) => match d_data(r2) {
+                Dec::Ok(a, r3) => match d_str(r3) {
+                    Dec::Ok(it, r4) => Dec::Ok(EcB::ForEach { content: c, index: ix, array: a, item: it }, r4),
+                    Dec::Fail => Dec::Fail,
+                    Dec::Unknown => Dec::Unknown,
+                },
+                Dec::Fail => Dec::Fail,
+                Dec::Unknown => Dec::Unknown,
+            },
+            Dec::Fail => Dec::Fail,
+            Dec::Unknown => Dec::Unknown,
+        },
+        Dec::Fail => Dec::Fail,
+        Dec::Unknown => Dec::Unknown,
+    }
+}
+
+pub open spec fn d_script(s: Seq<u8>) -> Dec<EcB> {
+    match d_list(s, fd_id()) {
+        Dec::Ok(l, r) => Dec::Ok(EcB::Script { content: l }, r),
+        Dec::Fail => Dec::Fail,
+        Dec::Unknown => Dec::Unknown,
+    }
+}
